@@ -317,3 +317,132 @@ func isExportedAPI(fn *ssa.Function) bool {
 	}
 	return true
 }
+
+// R-PUBLISH-BEFORE-CANCEL (C13): a plain field written by a goroutine of the run and read
+// by drivers after completion is written before the cancellation its readers wait for.
+func init() {
+	register(&Rule{Name: "R-PUBLISH-BEFORE-CANCEL", Min: 1,
+		Doc: "every non-atomic field of the runtime environment that a goroutine of the run writes and an exported accessor reads (the time taken) is stored, in the goroutine that owns the cancel function, before that cancel function can run: in the function body when cancel is deferred, and never inside a deferred function that runs after the deferred cancel (defers run last-in-first-out)",
+		Run: runPublishBeforeCancel})
+	ruleUsesCallGraph["R-PUBLISH-BEFORE-CANCEL"] = true
+}
+
+func runPublishBeforeCancel(p *Program, r *RuleResult) {
+	re := p.Named(processPkg, "RuntimeEnvironment")
+	carriers := map[string]bool{re.String(): true}
+	gf := p.computeGoFacts(carriers)
+	// fields read by exported accessors of the runtime environment
+	readByAPI := map[string]bool{}
+	for _, fn := range p.SrcFuncs {
+		if fn.Signature.Recv() == nil || !isNamed(fn.Signature.Recv().Type(), processPkg, "RuntimeEnvironment") || fn.Object() == nil || !fn.Object().Exported() {
+			continue
+		}
+		for _, b := range fn.Blocks {
+			for _, in := range b.Instrs {
+				if fa, ok := in.(*ssa.FieldAddr); ok && isNamed(fa.X.Type(), processPkg, "RuntimeEnvironment") {
+					for _, u := range *fa.Referrers() {
+						if ld, ok := u.(*ssa.UnOp); ok && ld.X == ssa.Value(fa) {
+							_, n, _ := fieldNameOf(fa)
+							readByAPI[n] = true
+						}
+					}
+				}
+			}
+		}
+	}
+	n := 0
+	for _, fn := range p.SrcFuncs {
+		root := rootMethod(fn)
+		if !gf.inGo[root] && !gf.inGo[fn] {
+			continue
+		}
+		for _, b := range fn.Blocks {
+			for _, in := range b.Instrs {
+				st, ok := in.(*ssa.Store)
+				if !ok {
+					continue
+				}
+				fa, ok := st.Addr.(*ssa.FieldAddr)
+				if !ok || !isNamed(fa.X.Type(), processPkg, "RuntimeEnvironment") {
+					continue
+				}
+				_, fname, _ := fieldNameOf(fa)
+				if !readByAPI[fname] {
+					continue
+				}
+				// atomic fields are covered by R-ATOMIC
+				n++
+				construct := fmt.Sprintf("publish:%s#%d", fname, n)
+				// the cancel function of the owning goroutine entry
+				var cancel *ssa.Parameter
+				for _, prm := range root.Params {
+					if isNamed(prm.Type(), "context", "CancelFunc") {
+						cancel = prm
+					}
+				}
+				if cancel == nil {
+					r.add(fnName(fn), construct, Violated, p.instrPos(st), fmt.Sprintf("field %s is written by a goroutine of the run and read by an exported accessor, but the writer does not own the cancellation its readers wait for: no ordering between the write and the read", fname))
+					continue
+				}
+				// how is cancel invoked in root?
+				var deferCancel *ssa.Defer
+				var directCancel []ssa.Instruction
+				for _, bb := range root.Blocks {
+					for _, i2 := range bb.Instrs {
+						switch x := i2.(type) {
+						case *ssa.Defer:
+							if origin(x.Call.Value) == ssa.Value(cancel) {
+								deferCancel = x
+							}
+						case *ssa.Call:
+							if origin(x.Call.Value) == ssa.Value(cancel) {
+								directCancel = append(directCancel, x)
+							}
+						}
+					}
+				}
+				view := p.View(root)
+				switch {
+				case fn == root:
+					bad := ""
+					for _, dc := range directCancel {
+						if hits := view.mayReachFrom(dc, nil, func(i ssa.Instruction) bool { return i == ssa.Instruction(st) }, nil); len(hits) > 0 {
+							bad = "the write can execute after the direct call of cancel at " + p.instrPos(dc)
+						}
+					}
+					if bad != "" {
+						r.add(fnName(fn), construct, Violated, p.instrPos(st), bad)
+					} else if deferCancel != nil || len(directCancel) > 0 {
+						r.add(fnName(fn), construct, Holds, p.instrPos(st), "written in the body; cancel runs afterwards (deferred or later call)")
+					} else {
+						r.add(fnName(fn), construct, Violated, p.instrPos(st), "the goroutine never invokes its cancel function")
+					}
+				default:
+					// inside a closure: is it deferred, and registered after the deferred cancel?
+					var deferred *ssa.Defer
+					for _, mc := range closureSites(fn) {
+						for _, u := range *mc.Referrers() {
+							if df, ok := u.(*ssa.Defer); ok && df.Call.Value == ssa.Value(mc) {
+								deferred = df
+							}
+						}
+					}
+					switch {
+					case deferred == nil:
+						r.add(fnName(fn), construct, Undecided, p.instrPos(st), "the write happens in a closure whose invocation is not analysed")
+					case deferCancel == nil:
+						r.add(fnName(fn), construct, Undecided, p.instrPos(st), "the write happens in a deferred function but cancel is not deferred")
+					case view.passedBefore(deferred, func(i ssa.Instruction) bool { return i == ssa.Instruction(deferCancel) }):
+						r.add(fnName(fn), construct, Holds, p.instrPos(st), "deferred after the deferred cancel, so it runs before it (LIFO)")
+					default:
+						r.add(fnName(fn), construct, Violated, p.instrPos(st),
+							fmt.Sprintf("field %s is written in a deferred function registered before `defer cancel()`: defers run last-in-first-out, so cancel (which releases the drivers waiting on ctx.Done) runs before the write and the accessor races with it", fname))
+					}
+				}
+			}
+		}
+	}
+	if n == 0 {
+		r.add("process", "published-fields", Undecided, "", "no field written by a goroutine and read by an exported accessor found (anchor lost)")
+	}
+}
